@@ -31,6 +31,9 @@ impl Shards {
 
         self.data
             .resize(self.shard_count * self.shard_len_64, [0; 64]);
+
+        #[cfg(feature = "verif-hooks")]
+        crate::verif_hooks::poison(&mut self.data);
     }
 
     pub(crate) fn insert(&mut self, index: usize, shard: &[u8]) {
